@@ -209,7 +209,8 @@ def replay(job, rec):
                 continue
             evals += 1
             try:
-                obs = np.asarray(getattr(cube, prop), dtype=float).ravel()
+                obs = getattr(cube, prop)
+                obs = float(obs) if e.get("nd") == 0 else np.asarray(obs, dtype=float).ravel()
             except Exception as ex:  # noqa
                 mism.append(Mismatch(prop_id, None, "Cube.%s raised %r" % (prop, ex), {},
                                      tags=dict(base_tags, prop="Cube." + prop,
